@@ -357,7 +357,9 @@ func reifyGetField(
 		// None primitive types always get initialized even if it doesn't implement the
 		// Initializer interface, because nested types might implement the Initializer interface.
 		if value == nil {
-			value = &cfgNil{cfgPrimitive{cfg.ctx, cfg.metadata}}
+			// errors about the defaults of the missing setting name its path
+			ctx := context{parent: cfgSub{cfg}, field: name}
+			value = &cfgNil{cfgPrimitive{ctx, cfg.metadata}}
 		}
 	}
 
